@@ -32,6 +32,8 @@ def gen_partials(rng, malformed=False):
     rows, mask = [], []
     for s in range(nseg):
         L = rng.randint(8, 20) if not malformed else rng.choice([0, 1, 3, 6, 7, 8, 9])
+        if not malformed and rng.random() < 0.04:
+            L = rng.choice([64, 127, 128, 129, 200, 300])      # long trajectories: a size-dependent code path must not differ
         coef = [[rng.randint(-3, 3) for _ in range(4)] for _ in range(D)]
         cubic = rng.random() < 0.6
         for t in range(L):
